@@ -188,7 +188,7 @@ impl Check for AcoRunCheck {
         "C19/aco-run".into()
     }
     fn classes(&self) -> &'static [&'static str] {
-        &["update where >= 2 tours share an edge", ">= 50 iterations", "n >= 5", "max-min variant", "trails decayed below 1e-100", "very unequal distances", "configuration used on a smaller instance before"]
+        &["update where >= 2 tours share an edge", ">= 50 iterations", "n >= 5", "max-min variant", "trails decayed below 1e-100", "very unequal distances", "configuration used on a smaller instance before", "run on the state left behind by a run on an instance of another size"]
     }
     fn oracle(&self, spec: &RunSpec) -> Outcome {
         let mut cl = 0;
@@ -229,7 +229,15 @@ fn run_oracle(spec: &RunSpec, cl: &mut u64) -> Result<(), Failure> {
         *cl |= 64;
     }
     let audit = Arc::new(Mutex::new(A19 { n, ants, rho, decay, bounds, min_trail_seen: f64::INFINITY, ..Default::default() }));
-    let res = run_observed_auto(&cfg, &problem, spec.seed, EvalKind::Sequential, audit.clone());
+    // one run in five is audited on the state an earlier run on an instance of ANOTHER size left behind (a caller that
+    // drives a sequence of instances through `Configuration::run` on one state): the trail matrix is per run
+    let res = if spec.seed % 5 == 3 {
+        *cl |= 128;
+        let other = crate::fixtures::problems::TspP::generated(if spec.seed % 2 == 0 { n + 2 } else { 3.max(n - 1).min(n + 1) + if n <= 3 { 1 } else { 0 } }, 0, spec.seed ^ 0x1234);
+        crate::fixtures::run::run_observed_warm(&cfg, &other, &problem, spec.seed, EvalKind::Sequential, audit.clone())
+    } else {
+        run_observed_auto(&cfg, &problem, spec.seed, EvalKind::Sequential, audit.clone())
+    };
     let a = audit.lock().unwrap();
     if a.shared_edge_updates > 0 {
         *cl |= 1;
@@ -305,7 +313,14 @@ impl Check for DirectCheck {
 fn direct_oracle(c: &DirectCase) -> Result<(), Failure> {
     let n = c.n;
     let problem = TspP::generated(n, c.dist_kind % 4, c.seed % 97);
-    let mut st = state_with::<TspP>(vec![vec![Individual::new_unevaluated(vec![])]], c.seed);
+    // what the current population holds before the generation replaces it: a placeholder, nothing, or more (evaluated)
+    // tours than the colony has ants - e.g. the tours of a larger colony working on the same population
+    let prior: Vec<Individual<TspP>> = match (c.seed >> 5) % 4 {
+        0 => vec![Individual::new_unevaluated(vec![])],
+        1 => vec![],
+        k => (0..c.ants + 2 + (k as usize - 2) * (c.ants + 3)).map(|_| Individual::new((0..n).collect(), 1.0.try_into().unwrap())).collect(),
+    };
+    let mut st = state_with::<TspP>(vec![prior], c.seed);
     let gen = AcoGeneration::new::<TspP>(c.ants, c.alpha, c.beta, 1.0);
     gen.init(&problem, &mut st).map_err(|e| Failure::new("C19 init", format!("{e}")))?;
     {
